@@ -333,4 +333,4 @@ def run(run, tier, loadcfg):
         check_interpolate(run, cx, cfg)
         check_precision(run, cx, cfg)
         from rules import C06
-        C06.check_used(run, cx, cfg, [b for b in fx_.bodies.values() if b['path'].startswith(('dasp_interpolate::sinc::Sinc', '<dasp_interpolate::sinc::Sinc'))], 4)
+        C06.check_used(run, cx, cfg, [b for b in fx_.bodies.values() if b['path'].startswith(('dasp_interpolate::sinc::Sinc', '<dasp_interpolate::sinc::Sinc'))], 4, handed=C06.F)
